@@ -27,6 +27,8 @@ def load_known():
         KNOWN_ORPAT = set(d.get("or_pattern_fns", []))
         global KNOWN_MATCHVAL
         KNOWN_MATCHVAL = set(d.get("match_value_fns", []))
+        global KNOWN_ARRAYLOOPS
+        KNOWN_ARRAYLOOPS = set(d.get("array_loop_fns", []))
         global REF_SIGS, REF_ADTS
         REF_SIGS = d.get("signatures", {})
         REF_ADTS = d.get("adts", {})
@@ -40,6 +42,7 @@ def load_known():
 
 PLAIN_EXTENDS = set()  # functions of the reference tree that call Extend::extend (the rules read those as written)
 PLAIN_COLLECTS = set()  # functions of the reference tree that call collect() directly on a closure-free iterator
+KNOWN_ARRAYLOOPS = set()  # functions of the reference tree that loop over a literal array: left as they are
 REF_ADTS = {}
 REF_SIGS = {}  # crate type -> reference signatures (see recognise_renames)
 KNOWN_MATCHVAL = set()  # likewise for matches whose arms bind out of different variants and meet again
@@ -2000,6 +2003,139 @@ def unmerge_or_patterns(b, log):
         log.append("%s: %d or-pattern arm(s) with bindings split into one body per alternative" % (b["path"], done))
 
 
+def unroll_literal_array_loops(b, log):
+    """`for x in [a, b, c] { body }` (an array literal of at most 6 elements, iterated by value): the body once per element, in order, `break` and
+    `continue` keeping their meaning. What the loop does for "the elements of the array" is then stated for each operand by name"""
+    done = 0
+    for _round in range(12):
+        did = False
+        preds = {}
+        live, work = set(), [0]
+        while work:
+            x = work.pop()
+            if x in live or x >= len(b["blocks"]) or b["blocks"][x].get("cleanup") or b["blocks"][x]["term"] is None:
+                continue
+            live.add(x)
+            work += succs(b["blocks"][x])
+        for i in live:
+            for t in succs(b["blocks"][i]):
+                preds.setdefault(t, []).append(i)
+        for H in sorted(live):
+            blk = b["blocks"][H]
+            t = blk["term"]
+            fn = callee_of(t) if t["k"] == "call" else None
+            if fn is None or fn["path"] != ITER + "next" or t.get("t") is None or not t["args"] or t["args"][0]["k"] not in ("move", "copy"):
+                continue
+            # the iterator local behind the `&mut it` (possibly reborrowed) handed to next()
+            o = t["args"][0]
+            it_l = None
+            for _ in range(3):
+                d = single_def(b, o["p"]["l"]) if not o["p"]["pr"] else None
+                if not (d and d[0] == "rv" and d[3]["k"] == "ref"):
+                    break
+                pl = d[3]["p"]
+                if not pl["pr"]:
+                    it_l = pl["l"]
+                    break
+                if pl["pr"] == ["deref"]:
+                    o = {"k": "copy", "p": {"l": pl["l"], "pr": []}}
+                    continue
+                break
+            if it_l is None:
+                continue
+            ity = b["locals"][it_l]["ty"]
+            if not ity.startswith(("std::array::IntoIter<", "core::array::IntoIter<")):
+                continue
+            ops = literal_array_source(b, {"k": "move", "p": {"l": it_l, "pr": []}})
+            if ops is None or len(ops) > 6 or not all(op_["k"] in ("move", "copy", "const") for op_ in ops):
+                continue
+            # the switch on the Option: None -> exhausted, Some -> body
+            sw = t["t"]
+            st = b["blocks"][sw]["term"]
+            if st["k"] != "switch" or len(preds.get(sw, [])) != 1:
+                continue
+            tgt = dict((v, bb) for (v, bb) in st["ts"])
+            if 0 not in tgt or 1 not in tgt:
+                continue
+            exhausted, some = tgt[0], tgt[1]
+            sb = b["blocks"][some]
+            if not sb["stmts"] or sb["stmts"][0]["k"] != "assign" or sb["stmts"][0]["rv"]["k"] != "use" or sb["stmts"][0]["rv"]["o"]["k"] not in ("move", "copy") \
+                    or not any(isinstance(e, dict) and e.get("dc") == "Some" for e in sb["stmts"][0]["rv"]["o"]["p"]["pr"]):
+                continue
+            # loop body: reachable from `some` without passing H, and able to come back to H
+            fwd, work = set(), [some]
+            while work:
+                x = work.pop()
+                if x in fwd or x == H or x not in live:
+                    continue
+                fwd.add(x)
+                work += succs(b["blocks"][x])
+            back, work = set(), [p_ for p_ in preds.get(H, []) if p_ in fwd]
+            while work:
+                x = work.pop()
+                if x in back or x not in fwd:
+                    continue
+                back.add(x)
+                work += [p_ for p_ in preds.get(x, []) if p_ in fwd]
+            body = sorted(back | {some})
+            if len(body) > 150 or any(p_ not in body and p_ != sw for x in body if x != some for p_ in preds.get(x, [])):
+                continue  # (entered from outside somewhere else: not a plain loop)
+            if any(H in succs(b["blocks"][x]) for x in live if x not in body and x != sw) is False and not [p_ for p_ in preds.get(H, []) if p_ not in body]:
+                continue
+            inside = set(body) | {H, sw}
+            used_in, used_out = set(), set()
+            for i in live:
+                acc = set()
+                locals_in(b["blocks"][i]["stmts"], acc)
+                locals_in(b["blocks"][i]["term"], acc)
+                (used_in if i in inside else used_out).update(acc)
+            private = set(l for l in used_in - used_out if l > b["arg_count"] and l != it_l)
+            entries = []
+            n0 = len(b["blocks"])
+            for k, op_ in enumerate(ops):
+                lmap = {}
+                for l in sorted(private):
+                    b["locals"].append(copy.deepcopy(b["locals"][l]))
+                    lmap[l] = len(b["locals"]) - 1
+                bmap = {x: len(b["blocks"]) + j for j, x in enumerate(body)}
+                bmap[H] = -1 - k  # patched below: the next copy's entry
+                for x in body:
+                    nb = rename(b["blocks"][x], lmap, bmap)
+                    if x == some:
+                        nb["stmts"][0] = assign(copy.deepcopy(nb["stmts"][0]["p"]), use(copy.deepcopy(op_)), nb["stmts"][0].get("loc") or blk["tloc"])
+                    b["blocks"].append(nb)
+                entries.append(bmap[some])
+            entries.append(exhausted)
+
+            def patch(x):
+                if isinstance(x, list):
+                    for i_, v in enumerate(x):
+                        if isinstance(v, list) and len(v) == 2 and isinstance(v[1], int) and not isinstance(v[1], bool) and v[1] < 0:
+                            v[1] = entries[-v[1]]
+                        else:
+                            patch(v)
+                elif isinstance(x, dict):
+                    for key in ("t", "else"):
+                        if isinstance(x.get(key), int) and not isinstance(x.get(key), bool) and x[key] < 0 and x.get("k") in ("goto", "switch", "drop", "call", "assert"):
+                            x[key] = entries[-x[key]]
+                    for v in x.values():
+                        patch(v)
+            patch(b["blocks"][n0:])
+            # entering the loop now means entering the first copy
+            for p_ in preds.get(H, []):
+                if p_ in body:
+                    continue
+                pb = rename(b["blocks"][p_], {}, {H: entries[0]})
+                b["blocks"][p_]["term"] = pb["term"]
+            done += 1
+            did = True
+            break
+        if not did:
+            break
+    if done:
+        log.append("%s: %d loop(s) over a literal array unrolled" % (b["path"], done))
+
+
 def unmerge_match_values(b, log):
     """`let x = match n { A(P(b)) => *b, B(Q(b)) => *b, _ => continue };` — every arm binds out of its own variant, derives the same local from the
     binding (a move out of the box, a reference, a field) and the arms meet again, possibly after dropping the emptied box. As for or-patterns, every
@@ -2301,6 +2437,8 @@ def preprocess(data, known=None, known_uses=None):
             guarded("or-pattern splitting", unmerge_or_patterns, b, log)
         if b["path"] not in KNOWN_ORPAT and b["path"] not in KNOWN_MATCHVAL:
             guarded("match value splitting", unmerge_match_values, b, log)
+        if b["path"] not in KNOWN_ARRAYLOOPS:
+            guarded("literal array loop unrolling", unroll_literal_array_loops, b, log)
     r = guarded("lazy statics", lambda d_: lazy_statics(d_, bodies, log), data)
     if r:
         spliced_closures |= r
@@ -2407,7 +2545,20 @@ def write_known(facts, path=KNOWN_FILE):
                 lg = ["?"]
             if lg:
                 mvf.add(b["path"])
-    json.dump({"match_value_fns": sorted(mvf), "adts": adts, "signatures": sigs, "signatures_comment": "per crate: parameter / result types and local callers / callees of every "
+    alf = set()
+    for c in facts.values():
+        for b in c["bodies"]:
+            if b.get("derived"):
+                continue
+            b2, lg = copy.deepcopy(b), []
+            try:
+                rewrite_idioms(b2, []); desugar_try(b2, []); thread_bool_jumps(b2, [])
+                unroll_literal_array_loops(b2, lg)
+            except Exception:
+                lg = ["?"]
+            if lg:
+                alf.add(b["path"])
+    json.dump({"array_loop_fns": sorted(alf), "match_value_fns": sorted(mvf), "adts": adts, "signatures": sigs, "signatures_comment": "per crate: parameter / result types and local callers / callees of every "
                "function of the reference tree, used only to recognise a function that was renamed or moved (prep.recognise_renames)", "comment": "function inventory of the reference tree (rules are anchored on these names); closure-taking calls of the reference tree; "
                           "functions of the reference tree with variable-binding or-patterns",
                "functions": sorted(fns), "closure_uses": sorted(list(u) for u in uses), "or_pattern_fns": sorted(orp), "plain_collects": sorted(plain), "plain_extends": sorted(pext),
